@@ -6,7 +6,11 @@
 // on the real Condition with a shim `models` whose model_stream(i) returns a stream that records the half-tone shift
 // applied to it.  The API-level counterpart of the `#wiring` obligation of Verus unit engine (which loses its anchors
 // when the calls are restructured).  Loop-free over symbolic condition values: complete for this slice.
-//@harness name=generator_mlpg_arguments_per_stream tier=quick label=proved props=C11,C12,C15 timeout=900
+// One harness per group of facts, so that a failure is reported under the properties that fact carries only.
+//@harness name=generator_streams_get_their_own_threshold tier=quick label=proved props=C11 timeout=900
+//@harness name=generator_streams_get_their_own_gv_weight tier=quick label=proved props=C11,C12 timeout=900
+//@harness name=generator_streams_get_their_own_model tier=quick label=proved props=C11,C12,C15 timeout=900
+//@harness name=generator_half_tone_reaches_the_lf0_model_only tier=quick label=proved props=C15 timeout=900
 use super::*;
 
 pub struct SStreamParam { shift: f64, shifted: bool }
@@ -40,8 +44,7 @@ impl SEngine {
     }
 }
 
-#[kani::proof]
-fn generator_mlpg_arguments_per_stream() {
+fn any_args() -> ([(f64, f64, SModelStream); 3], [f64; 3], [f64; 3], f64) {
     let mut c = Condition::default();
     let t: [f64; 3] = kani::any();
     let g: [f64; 3] = kani::any();
@@ -52,12 +55,35 @@ fn generator_mlpg_arguments_per_stream() {
     c.additional_half_tone = h;
     let e = SEngine { condition: c };
     let a = e.args(&SModels);
+    std::mem::forget(e);
+    (a, t, g, h)
+}
+
+/// C11: stream i is built with msd_threshold[i]
+#[kani::proof]
+fn generator_streams_get_their_own_threshold() {
+    let (a, t, _g, _h) = any_args();
+    let mut i = 0;
+    while i < 3 { assert!(a[i].1.to_bits() == t[i].to_bits()); i += 1; }
+    kani::cover!(true);
+    std::mem::forget(a);
+}
+/// C11 / C12: stream i is built with gv_weight[i]
+#[kani::proof]
+fn generator_streams_get_their_own_gv_weight() {
+    let (a, _t, g, _h) = any_args();
+    let mut i = 0;
+    while i < 3 { assert!(a[i].0.to_bits() == g[i].to_bits()); i += 1; }
+    kani::cover!(true);
+    std::mem::forget(a);
+}
+/// stream i is built from model_stream(i), with its vector length, GV statistics and windows as the models handed them out
+#[kani::proof]
+fn generator_streams_get_their_own_model() {
+    let (a, _t, _g, _h) = any_args();
     let mut i = 0;
     while i < 3 {
-        assert!(a[i].0.to_bits() == g[i].to_bits());        // gv_weight[i]
-        assert!(a[i].1.to_bits() == t[i].to_bits());        // msd_threshold[i]
         assert!(a[i].2.id == i);                            // model_stream(i)
-        // ... with its vector length, GV statistics and windows as the models handed them out
         assert!(a[i].2.vector_length == 7 + i && a[i].2.windows.tag == 40 + i);
         match &a[i].2.gv {
             Some((mv, sw)) => {
@@ -68,9 +94,15 @@ fn generator_mlpg_arguments_per_stream() {
         }
         i += 1;
     }
-    // the half tone reaches the log-F0 model, with the condition's value, before MLPG; the other streams are untouched
+    kani::cover!(true);
+    std::mem::forget(a);
+}
+/// C15: the half tone reaches the log-F0 model, with the condition's value, before MLPG; the other streams are untouched
+#[kani::proof]
+fn generator_half_tone_reaches_the_lf0_model_only() {
+    let (a, _t, _g, h) = any_args();
     assert!(a[1].2.stream.shifted && a[1].2.stream.shift.to_bits() == h.to_bits());
     assert!(!a[0].2.stream.shifted && !a[2].2.stream.shifted);
     kani::cover!(true);
-    std::mem::forget(e);
+    std::mem::forget(a);
 }
